@@ -270,3 +270,38 @@ Proof.
   rewrite forallb_forall in C. specialize (C b Ib). unfold pair_ok in C.
   rewrite K in C. cbn in C. eapply lockset_sound; eauto.
 Qed.
+
+(* ---------- time dependence ---------- *)
+(* The translator lists every call that makes a function's behaviour depend on time:
+   (function, what it asks the clock) - package time's wall-clock functions, the repository's own
+   pkg/clock, and I/O deadlines.  The Gallina models of the listeners, the parser, the mapper and
+   its caches take no time input; the queue and the relay see time only as the tick of one ticker,
+   the exporter loop as the tick of the sweep ticker, the registry as the value [now].  These
+   predicates say that the source agrees with that shape. *)
+Definition clock_row := (string * string)%type.
+
+(* no function of the packages [pkgs] (prefixes of the function name) depends on time *)
+Definition clock_free (t : list clock_row) (pkgs : list string) : bool :=
+  forallb (fun r => negb (existsb (fun p => prefix p (fst r)) pkgs)) t.
+
+(* functions of package [pkg] ask the clock nothing but [allowed] *)
+Definition clock_only (t : list clock_row) (pkg : string) (allowed : list string) : bool :=
+  forallb (fun r => negb (prefix pkg (fst r)) || existsb (String.eqb (snd r)) allowed) t.
+
+Lemma clock_free_sound t pkgs : clock_free t pkgs = true ->
+  forall f what p, In (f, what) t -> In p pkgs -> prefix p f = false.
+Proof.
+  intros H f what p Hin Hp. unfold clock_free in H. rewrite forallb_forall in H.
+  specialize (H _ Hin). cbn [fst] in H. apply negb_true_iff in H.
+  destruct (prefix p f) eqn:E; [|reflexivity].
+  assert (X : existsb (fun p0 => prefix p0 f) pkgs = true) by (apply existsb_exists; exists p; auto).
+  congruence.
+Qed.
+
+Lemma clock_only_sound t pkg allowed : clock_only t pkg allowed = true ->
+  forall f what, In (f, what) t -> prefix pkg f = true -> In what allowed.
+Proof.
+  intros H f what Hin Hp. unfold clock_only in H. rewrite forallb_forall in H.
+  specialize (H _ Hin). cbn [fst snd] in H. rewrite Hp in H. cbn in H.
+  apply existsb_exists in H as (x & Hx & E). apply String.eqb_eq in E. now subst.
+Qed.
